@@ -81,10 +81,16 @@ def find_all_defs(mod: ModuleSrc, qualname: str) -> list[ast.AST]:
     return nodes
 
 
-def get_function(ref: str) -> tuple[ModuleSrc, ast.FunctionDef]:
+def get_function(ref: str, index: int | None = None) -> tuple[ModuleSrc, ast.FunctionDef]:
     modname, qual = ref.split(":")
     mod = load_module(modname)
-    node = find_def(mod, qual)
+    if index is not None:
+        alld = find_all_defs(mod, qual)
+        if index >= len(alld):
+            raise KeyError(f"{ref}: definition #{index} not found")
+        node = alld[index]
+    else:
+        node = find_def(mod, qual)
     if not isinstance(node, ast.FunctionDef):
         raise KeyError(f"{ref} is not a function")
     return mod, node
